@@ -170,15 +170,26 @@ def _timed_transport(env, world):
                     o["t_first_write"] = time.time()
                     o["pre_tx"] = [o["ecu"].state.session, o["ecu"].state.security_access_level]
                     w.events.append(("tx", o["task"], o["k"]))
-                    o["others_in_flight"] = [t for t, c in w.cur.items() if c is not o and c["writes"] and "out" not in c]
+                # another exchange is on the wire: its request was written and the read that follows has not returned yet
+                busy = [t for t, c in w.cur.items() if c is not o and c.get("outstanding")]
+                if busy:
+                    o["others_in_flight"] = busy
+                o["outstanding"] = True
                 ev = o["wscript"].get(str(i))
                 if ev:
+                    o["outstanding"] = False
                     await self._fail(ev)
                 return len(data)
 
             async def read(self, timeout=None, tags=None):
-                w = self.w
-                o = w.cur.get(w.task())
+                o = self.w.cur.get(self.w.task())
+                try:
+                    return await self._read(o, timeout)
+                finally:
+                    if o is not None:
+                        o["outstanding"] = False
+
+            async def _read(self, o, timeout):
                 if o is None or not o["script"]:
                     if timeout:
                         await asyncio.sleep(timeout)
@@ -700,6 +711,7 @@ async def _tables_session(env, path, sess, out):
     db = H.DBHandler(path)
     out["db"] = db
     out["accepted"].append([])
+    out["accepted_st"].append([])
     await db.connect()
     # the writer task gets its first step (in the lifecycle `insert_run_meta` follows `connect()` and suspends): a
     # `disconnect()` before that cancels a task that never ran and lets the CancelledError escape - not a C11 matter
@@ -730,12 +742,14 @@ async def _tables_session(env, path, sess, out):
                         await db.insert_run_meta("c11", AsyncScriptConfig(), now, None)
                     elif name == "scanRun":
                         await db.insert_scan_run(URLS[op[1]])
+                        out["runs"].append([db.scan_run, op[1]])
                     elif name == "discoveryRun":
                         await db.insert_discovery_run("c11")
                     elif name == "discoveryResult":
                         await db.insert_discovery_result(URLS[op[1]])
                     elif name == "sessionTransition":
                         await db.insert_session_transition(op[1], [1, op[1]])
+                        out["accepted_st"][-1].append([db.scan_run, op[1]])
                     elif name == "scanResult":
                         await db.insert_scan_result({"session": 1, "security_access_level": None},
                                                     S.ReadDataByIdentifierRequest(op[1]), None, None, now, None, LogMode.implicit)
@@ -784,7 +798,7 @@ def run_tables(case):
     rec_e, rec_h = base._Rec(), base._Rec()
     env["E"].logger = rec_e
     env["H"].logger = rec_h
-    out = {"db": None, "refused": [], "performed": [], "injected": 0, "accepted": []}
+    out = {"db": None, "refused": [], "performed": [], "injected": 0, "accepted": [], "accepted_st": [], "runs": []}
     end = "ok"
     snap = []
     with tempfile.TemporaryDirectory(prefix="c11t-", dir=os.environ.get("C11_TMP") or None) as d:
@@ -811,7 +825,8 @@ def run_tables(case):
             snap.append(_read_tables(path))
     warnings = [m for (lvl, m) in rec_e.msgs + rec_h.msgs]
     return {"tables": snap, "refused": out["refused"], "performed": out["performed"], "warnings": warnings, "end": end,
-            "injected": out["injected"], "accepted": out["accepted"], "rows": [], "obs": []}
+            "injected": out["injected"], "accepted": out["accepted"], "accepted_st": out["accepted_st"], "runs": out["runs"],
+            "rows": [], "obs": []}
 
 
 def _read_tables(path):
@@ -884,6 +899,26 @@ def judge_tables(res, case):
             return ("tables:scan_result-extra", f"{len(have) - n_ok} scan_result row(s) more than accepted calls")
     if any("Could not log messages to database" in w for w in res["warnings"]):
         return ("tables:warning-could-not-log", [w for w in res["warnings"] if "Could not log" in w][0][:200])
+    if not any(s.get("interrupted") for s in case["sessions"]):
+        # session transitions that were accepted are in the table, with the scan run that was current at the call, in call order
+        want_st = [tuple(a) for acc in res["accepted_st"] for a in acc]
+        have_st = [tuple(r) for r in res["tables"][-1]["st"]]
+        # (a call cancelled at the await of its INSERT is not "accepted" although the statement is still executed: with a
+        #  cut point the comparison with the model decides)
+        if have_st != want_st and not any(s.get("cancel_at") is not None for s in case["sessions"]):
+            if len(have_st) < len(want_st) and have_st == want_st[:len(have_st)] or sorted(have_st) != sorted(want_st) and len(have_st) < len(want_st):
+                return ("tables:session_transition-missing", f"{len(want_st) - len(have_st)} accepted session_transition row(s) are not in the table after disconnect()")
+            k = next((i for i in range(min(len(have_st), len(want_st))) if have_st[i] != want_st[i]), min(len(have_st), len(want_st)))
+            return ("tables:session_transition-differs", f"session_transition rows differ from the accepted calls at position {k}: expected (run, destination) "
+                    f"{want_st[k] if k < len(want_st) else None}, got {have_st[k] if k < len(have_st) else None}")
+        # every scan run created by insert_scan_run still points to the address row of its target
+        t = res["tables"][-1]
+        url_of = {a: u for a, u in t["ad"]}
+        rows = {r[0]: r for r in t["sr"]}
+        for (rid, u) in res["runs"]:
+            if rid in rows and (rows[rid][1] is None or url_of.get(rows[rid][1]) != u):
+                return ("tables:scan_run-address", f"scan_run {rid} was created for target {u} but its address column is {rows[rid][1]} "
+                        f"({url_of.get(rows[rid][1])})")
     return None
 
 
@@ -1166,15 +1201,19 @@ def run_life(case):
             cfg = L["Cfg"](target=LIFE_URL, dumpcap=False, db=path, ping=case["ping"], ecu_reset=case.get("ecu_reset"),
                            tester_present=case["tp"], tester_present_interval=case.get("tp_interval", 0.5),
                            properties=case["properties"], timeout=0.5, max_retries=0)
-            cmd = L["TLife"](cfg)
+            try:
+                cmd = L["TLife"](cfg)
+            except Exception as e:
+                end = "error: constructor: " + repr(e)
 
             async def go():
                 asyncio.current_task().set_name("A")
                 return await cmd.entry_point()
 
             try:
-                rc = loop.run_until_complete(go())
-                end = "ok" if rc == 0 else f"exit:{rc}"
+                if cmd is not None:
+                    rc = loop.run_until_complete(go())
+                    end = "ok" if rc == 0 else f"exit:{rc}"
             except asyncio.CancelledError:
                 end = "cancelled"
             except Stall as e:
